@@ -343,8 +343,14 @@ def main(prop="overcount", pid=PID):
     return obs, shapes, bmc_cfg, nb, t0, tier
 
 
+def ob_witness_branches():
+    from checks import c04
+    return c04.ob_witness()
+
+
 def run(prop, pid, explanation, extra_outside):
     obs, shapes, bmc_cfg, nb, t0, tier = main(prop, pid)
+    obs.append(common.Ob("witness: match / replacement / decrement branches of _add all reachable in the harness", ob_witness_branches, (), kind="witness", hard_s=300))
     results = common.run_obligations(obs, progress=os.environ.get("VERIF_VERBOSE") == "1")
     ncti = 0
     for o, r in zip(obs, results):
